@@ -117,7 +117,7 @@ def h_sequence(h):
         theta0 = dict(start)
         theta0.update(fixed)
         objs.append((tag, S, fam.make(**kw), theta0))
-    data = h.reals("d", h.cfg["n"], 0.3, 6.0)
+    data = h.reals("d", h.cfg["n"], 2.5, 8.0)  # inside the support for every admissible location
     for tag, S, d, theta0 in objs:
         log = _fit_and_log(h, fam, d, data, "mle")
         h.check(len(log) == 1, "scipy-fit-called-once")
@@ -139,7 +139,7 @@ def h_plumbing(h):
     d = fam.make(**kw)
     theta0 = dict(start)
     theta0.update(fixed)
-    data = h.reals("d", h.cfg["n"], 0.3, 6.0)
+    data = h.reals("d", h.cfg["n"], 2.5, 8.0)  # inside the support for every admissible location
     method = h.cfg["method"]
     if h.sym:
         stubs.install_fit()
